@@ -1,7 +1,7 @@
 SPECIFICATION Spec
 CONSTANTS
   N = 3
-  Powers = {1, 2, 3, 5, 7, 8, 100, 4099, 16384, 32767}
+  Powers = {1, 2, 3, 7, 100, 4099, 16384, 32767}
   UseCeil = TRUE
 INVARIANT FactsInv
 CHECK_DEADLOCK FALSE
